@@ -1,9 +1,9 @@
 package props
 
 import (
-	"encoding/json"
 	"bytes"
 	"context"
+	"encoding/json"
 	"fmt"
 	"strings"
 	"sync"
